@@ -185,6 +185,7 @@ func caseMultiJob(t *testing.T, tp *simrt.Tape, res *Result) {
 	res.stat("sched.steps", int64(out.Steps))
 	res.stat("max.tasks", int64(out.Tasks))
 	res.SchedHash = schedHash(out.Trace)
+	res.Orders = append(res.Orders, out.Orders...)
 	for _, p := range out.Panics {
 		res.add("C14", "C14 panic under concurrent jobs "+panicClass(p.Value)+" in "+topFrame(p.Stack), map[string]any{"task": p.Name, "value": p.Value, "stack": tail(p.Stack, 2500)})
 	}
